@@ -117,11 +117,9 @@ fn gen_case(rng: &mut Rng, out: &mut Out, tier: &str) {
             defs.push((e, *rng.pick(&BASES), q));
         }
     }
-    // random instrument order (instrument index is independent of exchange order)
-    for i in (1..defs.len()).rev() {
-        let j = rng.below(i as u64 + 1) as usize;
-        defs.swap(i, j);
-    }
+    // instruments stay grouped by exchange label: `IndexedInstruments` sorts by (exchange, name), and the
+    // shared protocol identifies instrument label k with the k-th InstrumentIndex only in that order
+    // (close-position requests are printed in the engine's iteration order)
     let nins = defs.len();
     let trading = if rng.chance(30) { "on" } else { "off" };
     out.line(init_line(trading, &links, &defs));
@@ -205,11 +203,11 @@ fn gen_case(rng: &mut Rng, out: &mut Out, tier: &str) {
 }
 
 /// thorough tier: every filter over every small state.
-/// 2 exchanges, instruments i0 = (ex0, a0/a3), i1 = (ex1, a1/a3) or (ex1, a0/a3) or (ex0, a1/a3);
+/// instruments i0 = (ex0, a0/a3), i1 = (ex1, a1/a3) or (ex1, a0/a3) or (ex0, a1/a4);
 /// per instrument an order class and a position class; every filter (none, all subsets of
 /// exchanges / instruments / underlyings incl. ones naming nothing); both commands, each twice.
 fn exhaustive(out: &mut Out) {
-    let layouts: [[Def; 2]; 3] = [[(0, 0, 3), (1, 1, 3)], [(0, 0, 3), (1, 0, 3)], [(1, 0, 3), (0, 1, 4)]];
+    let layouts: [[Def; 2]; 3] = [[(0, 0, 3), (1, 1, 3)], [(0, 0, 3), (1, 0, 3)], [(0, 0, 3), (0, 1, 4)]];
     // order classes: list of (class, cid)
     let order_classes: [&[(char, u64)]; 5] = [
         &[],
@@ -240,7 +238,8 @@ fn exhaustive(out: &mut Out) {
                         for f in filters.iter() {
                             id += 1;
                             out.case(format!("x{id}"));
-                            out.line(init_line("off", "HH", layout));
+                            let links = if layout.iter().any(|d| d.0 == 1) { "HH" } else { "H" };
+                            out.line(init_line("off", links, layout));
                             for (i, (classes, pos)) in [(ca, posa), (cb, posb)].iter().enumerate() {
                                 for (class, cid) in classes.iter() {
                                     for l in order_ops(*class, layout[i].0, i, *cid, 10 + *cid, 1) {
